@@ -211,13 +211,16 @@ def arz_shower_on_the_cone_is_exact():
     else:
         nxt = t[len(t) - 1] + dt
     prove("one-value-per-sample", len(v) == len(t))
+    # (native comparison: the difference of two nearly equal potentials is only accurate relative to the potentials)
     prove("finite-difference-of-the-potential-over-R",
-          eq(v[i], -(POTENTIAL(nxt - t0, e) - POTENTIAL(t[i] - t0, e)) / R / dt))
+          eq(v[i], -(POTENTIAL(nxt - t0, e) - POTENTIAL(t[i] - t0, e)) / R / dt,
+             scale=(absval(POTENTIAL(nxt - t0, e)) + absval(POTENTIAL(t[i] - t0, e))) / R / dt if NATIVE else None))
     s = real("shift", -1e-6, 1e-6)
     v2 = a.shower_signal(t + s, e, PROFILE, POTENTIAL, th, R, n, t0 + s)
-    prove("joint-shift-invariance", eq(v2[i], v[i]))
+    sc = (absval(POTENTIAL(nxt - t0, e)) + absval(POTENTIAL(t[i] - t0, e))) / dt if NATIVE else None
+    prove("joint-shift-invariance", eq(v2[i], v[i], scale=sc / R if NATIVE else None, tol=1e-6 if NATIVE else None))
     v1 = a.shower_signal(t, e, PROFILE, POTENTIAL, th, 1, n, t0)
-    prove("inverse-distance", eq(v[i] * R, v1[i]))
+    prove("inverse-distance", eq(v[i] * R, v1[i], scale=sc))
 
 
 @harness(clause="sample-shift")
